@@ -472,10 +472,10 @@ func runC12(c *Ctx) {
 	}
 	if c.Phase == "main" {
 		// single-threaded histories first (deterministic reuse of the one cached printer), then all workers
-		c12stress(c, ref, 1, 1, c.pick(8000, 600000), false)
-		c12stress(c, ref, c.Workers, c.Workers, c.pick(1500, 200000), false)
+		c12stress(c, ref, 1, 1, c.pick(8000, 300000), false)
+		c12stress(c, ref, c.Workers, c.Workers, c.pick(1500, 60000), false)
 	} else {
-		reps := int(c.pick(1, 5))
+		reps := int(c.pick(1, 3))
 		for rep := 0; rep < reps; rep++ {
 			gs, pr := []int{2, 8, 16}, []int{1, 4, 16}
 			if c.thorough() {
@@ -483,7 +483,7 @@ func runC12(c *Ctx) {
 			}
 			for _, g := range gs {
 				for _, p := range pr {
-					c12stress(c, ref, g, p, c.pick(60, 1500), true)
+					c12stress(c, ref, g, p, c.pick(60, 500), true)
 				}
 			}
 		}
